@@ -131,6 +131,11 @@ pub trait World {
     fn directed() -> Vec<(String, Vec<Self::Op>)>;
 
     fn op_kind(op: &Self::Op) -> usize;
+    /// Kinds that create objects (kept when a history is thinned for the concurrent phase).
+    #[allow(dead_code)]
+    fn builder_kinds() -> &'static [usize] {
+        &[]
+    }
     fn op_to_json(op: &Self::Op) -> J;
     fn op_from_json(j: &J) -> Result<Self::Op, String>;
     /// Simpler variants of one operation, tried by the minimiser.
